@@ -19,6 +19,14 @@ func verifStubProxy(p *httputil.ReverseProxy, rw http.ResponseWriter, req *http.
 	name := p.Transport.(*verifFakeRT).name
 	verifHit(name)
 	kind, status := verifNextOutcome()
+	if kind != verifOutRefused && verifInterim() {
+		// as ReverseProxy's Got1xxResponse hook does: forward the interim response, then clear the header map
+		rw.WriteHeader(http.StatusEarlyHints)
+		h := rw.Header()
+		for k := range h {
+			delete(h, k)
+		}
+	}
 	switch kind {
 	case verifOutStatus:
 		rw.Header().Set("Content-Type", "text/plain")
